@@ -29,9 +29,11 @@ impl DurationLiteral {
         // The whole part is entirely seconds
         let whole_seconds = Duration::days(days.whole as i64);
 
-        // The fraction has both seconds and one part femptoseconds
-        let fraction_seconds = Duration::microseconds(
-            (days.femptos * SECOND_PER_DAY / FixedPoint::FRACTIONAL_UNITS) as i64,
+        // The fraction is a number of seconds with a fractional part; keep
+        // it to the nanosecond (the product needs more than 64 bits)
+        let fraction_seconds = Duration::nanoseconds(
+            (days.femptos as u128 * SECOND_PER_DAY as u128 * 1_000_000_000
+                / FixedPoint::FRACTIONAL_UNITS as u128) as i64,
         );
 
         Self {
@@ -53,9 +55,11 @@ impl DurationLiteral {
         // The whole part is entirely seconds
         let whole_seconds = Duration::hours(hours.whole as i64);
 
-        // The fraction has both seconds and one part femptoseconds
-        let fraction_seconds = Duration::microseconds(
-            (hours.femptos * SECOND_PER_HOUR / FixedPoint::FRACTIONAL_UNITS) as i64,
+        // The fraction is a number of seconds with a fractional part; keep
+        // it to the nanosecond (the product needs more than 64 bits)
+        let fraction_seconds = Duration::nanoseconds(
+            (hours.femptos as u128 * SECOND_PER_HOUR as u128 * 1_000_000_000
+                / FixedPoint::FRACTIONAL_UNITS as u128) as i64,
         );
 
         Self {
@@ -77,9 +81,11 @@ impl DurationLiteral {
         // The whole part is entirely seconds
         let whole_seconds = Duration::minutes(minutes.whole as i64);
 
-        // The fraction has both seconds and one part femptoseconds
-        let fraction_seconds = Duration::microseconds(
-            (minutes.femptos * SECOND_PER_MINUTE / FixedPoint::FRACTIONAL_UNITS) as i64,
+        // The fraction is a number of seconds with a fractional part; keep
+        // it to the nanosecond (the product needs more than 64 bits)
+        let fraction_seconds = Duration::nanoseconds(
+            (minutes.femptos as u128 * SECOND_PER_MINUTE as u128 * 1_000_000_000
+                / FixedPoint::FRACTIONAL_UNITS as u128) as i64,
         );
         Self {
             span: minutes.span,
